@@ -3516,7 +3516,8 @@ class FuncRound(ValueFunc):
         x = args.getNumerical("x")
         digits = 0
         if args.hasArg("digits"):
-            digits = args.getInt("digits").value
+            # a double has no digit beyond these positions
+            digits = max(-400, min(400, args.getInt("digits").value))
         return ValueDecimal(round(x.asDecimal().value, digits))
 
 
